@@ -42,8 +42,8 @@ NAMES = ('EQ:A_1', 'EQ:A', 'A_1_2', 'A_1', 'A', 'X_1', 'X', 'EQ:SPY', 'A_12', 'A
 BAD_PRICES = (0.0, -0.0, -1.0, -2.5, -1e-12, 0, -3)
 
 BOUND = (
-    "quick: a seeded sample (random.Random(seed)) of: 500 of the 21845 price streams of length 0-7 over "
-    "{1.0,2.0,2.5,10.0} (one asset, all six lookbacks {1,2,3,5,8,21}, value checked after the last append); "
+    "quick: a seeded sample (random.Random(seed)) of: 400 of the 21845 price streams of length 0-7 over "
+    "{1.0,2.0,2.5,10.0} (one asset, all six lookbacks {1,2,3,5,8,21}, value checked after the last append; single-lookback twin comparison on every 4th); "
     "interleaved 2-3 asset small-alphabet streams and random log-normal streams up to length 300 with "
     "lookback subsets of {1,2,3,5,8,21} (any order) and 1-3 asset names drawn from a 12-name list with "
     "underscores/digits/colons; rejected-price cases (0.0,-0.0,-1.0,-2.5,-1e-12,0,-3, seen and unseen assets); "
@@ -256,7 +256,7 @@ def _run_stream(case, acc):
             _check_values(acc, case, sigs, assets, lookbacks, hist, i + 1)
     pos = len(appends)
     # lookbacks never influence each other: same value as a signal that only knows this one lookback
-    if len(lookbacks) >= 2:
+    if len(lookbacks) >= 2 and case.get('indep', True):
         for N in lookbacks:
             solo = _mk_static_signals(assets, [N])
             for ai, price in appends:
@@ -418,7 +418,9 @@ def _run_keys(case, acc):
         if kname != 'buffers':
             badv = []
             for i, a in enumerate(names):
-                for lb in lbs:
+                for j, lb in enumerate(lbs):
+                    if kname != 'sma' and (i + j) % 6:
+                        continue  # momentum/volatility evaluations are slow: every 6th pair
                     v = _call(obj, a, lb)
                     e = float(i + 1) if kname == 'sma' else 0.0
                     if isinstance(v, str) or not _same(v, e):
@@ -592,9 +594,12 @@ def _key(case):
 # --------------------------------------------------------------------------------------------------
 # Case generators
 # --------------------------------------------------------------------------------------------------
-def _small_stream_case(word, name):
-    return {'type': 'stream', 'assets': [name], 'lookbacks': list(LOOKBACKS),
-            'appends': [[0, p] for p in word], 'checkpoints': 'final'}
+def _small_stream_case(word, name, indep=True):
+    c = {'type': 'stream', 'assets': [name], 'lookbacks': list(LOOKBACKS),
+         'appends': [[0, p] for p in word], 'checkpoints': 'final'}
+    if not indep:
+        c['indep'] = False  # skip the (slow) single-lookback twin comparison for this case
+    return c
 
 
 def _all_small_words():
@@ -738,7 +743,8 @@ def _quick_cases(seed):
     words = list(_all_small_words())
     groups = [
         [{'type': 'keys', 'names': len(key_names()), 'lookbacks': list(KEY_LOOKBACKS)}],
-        [_small_stream_case(list(w), NAMES[i % len(NAMES)]) for i, w in enumerate(rng.sample(words, 500))],
+        [_small_stream_case(list(w), NAMES[i % len(NAMES)], indep=(i % 4 == 0))
+         for i, w in enumerate(rng.sample(words, 400))],
         [_gen_multi_small(rng) for _ in range(50)],
         [_gen_random_stream(rng) for _ in range(40)],
         [_gen_reject(rng) for _ in range(40)],
